@@ -27,7 +27,7 @@ RULE = ("cases = generated valid specifications x {0 violations (accepted stream
         "specifications classified (constructed, functions created, solved, simulated)")
 ASSUMPTIONS = ["wrong *types* of n_periods and non-dict containers are not among the listed rules and are not generated"]
 VIOLATIONS = ["n_periods", "no_utility", "no_next", "overlap", "non_grid", "non_callable", "key_not_str", "stoch_on_cont", "stoch_dep_cont", "stoch_dep_other",
-              "filter_param", "bad_grid", "bad_disc"]
+              "filter_param", "filter_param_aux", "bad_grid", "bad_disc"]
 BAD_DISC = [[0, 2, 1, 3], [0, 0.5, 2], [1, 0], [0, 2], [0, 1, 1], [0, 3, 1, 2, 4], [0, 1, 3], [1, 2, 3], [0, "a"], [0, None, 2], [0, 5, 7, 3]]
 FORCES = [None, ["filter"], ["stoch"], ["mixed"], ["constraint"], ["cont2"], ["aux"], ["f1"]]
 
@@ -170,6 +170,18 @@ def apply_violations(r, mj, kinds, bad_index=None):
                 raw["functions"].append({"name": "p_filter", "args": [dstates[0], "theta"], "body": ["le", ["num", "0"], ["var", dstates[0]]], "stochastic": False, "key_ok": True, "value_ok": True, "ints": True})
             else:
                 continue
+        elif k == "filter_param_aux":
+            # the filter reaches a parameter through an auxiliary function
+            fl = [f for f in raw["functions"] if f["name"].endswith("_filter")]
+            if not dstates:
+                continue
+            raw["functions"].append({"name": "fpa", "args": [dstates[0], "theta"], "body": ["add", ["var", dstates[0]], ["var", "theta"]], "stochastic": False, "key_ok": True, "value_ok": True, "ints": True})
+            if fl:
+                f = r.choice(fl)
+                f["args"] = f["args"] + ["fpa"]
+                f["body"] = ["or", f["body"], ["le", ["num", "-1000"], ["var", "fpa"]]]
+            else:
+                raw["functions"].append({"name": "p_filter", "args": [dstates[0], "fpa"], "body": ["le", ["num", "-1000"], ["var", "fpa"]], "stochastic": False, "key_ok": True, "value_ok": True, "ints": True})
         elif k == "bad_grid":
             bad_grid = BAD_GRIDS[bad_index % len(BAD_GRIDS)] if bad_index is not None else r.choice(BAD_GRIDS)
         elif k == "bad_disc":
@@ -297,9 +309,15 @@ def run_case(case):
                 "states": raw["states"], "choices": raw["choices"]}
         o = driver().call({"op": "validate_model", "model": mraw})
         want = {"accepted": ("accepted", "accepted"), "ModelInit": ("model", "ModelInit"), "ValueError": ("functions", "ValueError")}[o]
+    if "filter_param_aux" in applied and want[0] == "accepted":
+        # the Lean rule looks at the filter's own arguments; a parameter reached through an auxiliary function makes it "a filter
+        # with parameters" all the same
+        want = ("functions", "ValueError")
     supported = not applied
     via_replace = bool(applied) and bad_grid is None and (case.get("seed", 0) % 2 == 1)
     stage, kind, detail = classify_impl(raw, tuple(bad_grid) if bad_grid else None, want[0] == "accepted" and supported, r, meta, mj, via_replace=via_replace)
+    if "filter_param_aux" in applied and stage == "functions" and kind.startswith("Internal:ValueError"):
+        kind = "ValueError"     # a ValueError when the functions are created is what the property asks for, whichever module raises it
     h[f"via_replace={via_replace}"] = 1
     h[f"outcome={stage}:{kind.split(':')[0]}"] = 1
     rc = {"kind": "raw", "raw": raw, "violations": applied, "bad_grid": list(bad_grid) if bad_grid else None, "meta": meta, "model": mj, "seed": case.get("seed", 0)}
